@@ -375,6 +375,10 @@ def rule_heartbeat(ctx):
         br = "T" if is_none_test(t.ast, negate=True) is not None else "F"
         ok = cp.exit not in cp.reachable([m for m, l in t.succ if l == br], avoid=set(st), exc=False, include_src=True)
     ctx.ob(R, fp, fp.node, ok, "a heartbeat task that already finished stays referenced: no new one is ever started after the next join", text="stop-clears-reference")
+    from .c19 import leave_effects
+    fl = ctx.fn(f"{GC}._maybe_leave_group")
+    okl, why = leave_effects(ctx, fl)
+    ctx.ob(R, fl, fl.node, okl, "a member that leaves the group by itself (idle longer than max_poll_interval_ms): " + why, text="leave-requests-rejoin")
     from .c19 import _skip_edges, aliases, paths_avoiding
     cn = [n for n in cp.calls(attr="cancel") if unparse(n.ast.func.value) in aliases(fp, "self._heartbeat_task")]
     # every path cancels, except the ones that found no task / a finished task
